@@ -364,7 +364,7 @@ def run(ctx):
             dom = effects.EffectDomain(classes, attrs={"self._results": ("tuple", ("wobj", "w0"), ("wobj", "w1"))})
             res_ = effects.run(ctx, dom, d, c, {"message": ("const", "anyMethod"), d.args.vararg.arg if d.args.vararg else "args": ("tuple", ("arg", 0)),
                                                  d.args.kwarg.arg if d.args.kwarg else "kwargs": ("kwdict", (("k", ("arg", "k")),))})
-            want_calls = [("w0.anyMethod", (("arg", 0),), (("k", ("arg", "k")),)), ("w1.anyMethod", (("arg", 0),), (("k", ("arg", "k")),))]
+            want_calls = [("w0.anyMethod", (("arg", 0),), (("k", ("arg", "k")),), "ok"), ("w1.anyMethod", (("arg", 0),), (("k", ("arg", "k")),), "ok")]
             ok = bool(res_) and all(r.kind == "val" and effects.calls(r) == want_calls and r.value == ("tuple", ("ret", "w0", "anyMethod"), ("ret", "w1", "anyMethod")) for r in res_)  # a lazy result would be ("lazyseq", ...)
             ctx.check("R-CONTROL-PLUMBED", "MultiTestResult._dispatch calls every wrapped result (strict)", d, ok,
                       "_dispatch does not eagerly call the message on every element of self._results", construct=f"{REAL}:MultiTestResult._dispatch::all")
